@@ -285,16 +285,33 @@ func hostileRun(d hostileDecoder, in []byte, class, sub string) hostileEv {
 }
 
 func chunkBytes(rng *rand.Rand, secs int) ([]byte, []int) {
+	return chunkBytesHM(rng, secs, -2, -2)
+}
+
+// chunkBytesHM: n1/n2 = number of longs of the two height maps (-2: as the chunk has them, -1: the entry is absent)
+func chunkBytesHM(rng *rand.Rand, secs int, n1, n2 int) ([]byte, []int) {
 	c := level.EmptyChunk(secs)
 	for i := 0; i < 30; i++ {
 		c.Sections[rng.Intn(secs)].SetBlock(rng.Intn(4096), level.BlocksState(rng.Intn(200)))
 	}
 	// assemble by the wire layout so that the offsets of the length prefixes are known
 	var hm bytes.Buffer
-	pk.NBT(struct {
-		MotionBlocking []uint64 `nbt:"MOTION_BLOCKING"`
-		WorldSurface   []uint64 `nbt:"WORLD_SURFACE"`
-	}{c.HeightMaps.MotionBlocking.Raw(), c.HeightMaps.WorldSurface.Raw()}).WriteTo(&hm)
+	resize := func(raw []uint64, n int) []uint64 {
+		if n < 0 {
+			return raw
+		}
+		out := make([]uint64, n)
+		copy(out, raw)
+		return out
+	}
+	hmv := map[string][]uint64{}
+	if n1 != -1 {
+		hmv["MOTION_BLOCKING"] = resize(c.HeightMaps.MotionBlocking.Raw(), n1)
+	}
+	if n2 != -1 {
+		hmv["WORLD_SURFACE"] = resize(c.HeightMaps.WorldSurface.Raw(), n2)
+	}
+	pk.NBT(hmv).WriteTo(&hm)
 	data, _ := c.Data()
 	out := append([]byte{}, hm.Bytes()...)
 	offs := []int{len(out)}
@@ -586,7 +603,7 @@ func runC08(env *vk.Env) {
 		if len(in) > 1200 && palcontBlocksN != 4096 {
 			continue // TLC evaluates Wire!Dec on every input; long inputs add time, not coverage
 		}
-		prior := wirePriors[rng.Intn(4)]
+		prior := wirePriors[rng.Intn(len(wirePriors))]
 		tr.Add(wireDecEvent(t, rng.Intn(2), in, prior, nil, rng.Intn(2) == 0, class))
 		env.Distinct("wire/" + t.T + "/" + class)
 		if i == 5 {
@@ -613,6 +630,23 @@ func runC08(env *vk.Env) {
 	tr = &vk.Trace{}
 	for _, d := range hostileDecoders() {
 		hostileMutations(rng, d, tr, env.Pick(2, 12), env)
+	}
+	// chunks whose height maps are absent, empty or of a wrong length (the section count fixes the right one)
+	for _, d := range hostileDecoders() {
+		if d.Name != "level.Chunk.ReadFrom" {
+			continue
+		}
+		for _, secs := range []int{1, 4, 24} {
+			right := len(level.EmptyChunk(secs).HeightMaps.MotionBlocking.Raw())
+			ns := []int{-1, 0, 1, right - 1, right, right + 1}
+			for _, n1 := range ns {
+				for _, n2 := range ns {
+					in, _ := chunkBytesHM(rng, secs, n1, n2)
+					tr.Add(hostileRun(d, in, "other", "heightmap-length"))
+				}
+			}
+		}
+		env.Distinct("hostile/" + d.Name + "/heightmap-length")
 	}
 	hostileCommands(rng, tr, env.Pick(12, 80), env)
 	hostileDispatch(rng, tr, env.Pick(60, 600), env)
